@@ -82,7 +82,10 @@ Definition eval_amode (a : amode) : Z := w64 (base a + index a * 2 ^ shift a + s
 
 Definition as_imm32_nosign (u : Z) : option Z := if (u <? 2147483648) then Some u else None.
 
-Definition lower_addends_to_amode (x y : addend) (offBase : Z) : amode :=
+(* al: both addends are shifted and sit in the SAME register. Two shifted registers cannot be absorbed: the code
+   shifts x's register IN PLACE (shl $sx, x.r — the register stays clobbered for every later use of that value) and
+   then reads y's register, which is the clobbered one when al holds. *)
+Definition lower_addends_to_amode (x y : addend) (offBase : Z) (al : bool) : amode :=
   let offx := match x with AOff o => o | _ => 0 end in
   let offy := match y with AOff o => o | _ => 0 end in
   let u64 := w64 (w64 (offx + offy) + offBase) in
@@ -100,7 +103,8 @@ Definition lower_addends_to_amode (x y : addend) (offBase : Z) : amode :=
   let u32 := u mod W32 in
   match x, y with
   | AReg vx sx, AReg vy sy =>
-      if (negb (sx =? 0)) && (negb (sy =? 0)) then {| disp := u32; base := w64 (vx * 2 ^ sx); index := vy; shift := sy |}
+      if (negb (sx =? 0)) && (negb (sy =? 0)) then
+        {| disp := u32; base := w64 (vx * 2 ^ sx); index := (if al then w64 (vy * 2 ^ sx) else vy); shift := sy |}
       else if (negb (sx =? 0)) then {| disp := u32; base := vy; index := vx; shift := sx |}
       else {| disp := u32; base := vx; index := vy; shift := sy |}
   | AReg vx sx, AOff _ | AOff _, AReg vx sx =>
@@ -108,6 +112,12 @@ Definition lower_addends_to_amode (x y : addend) (offBase : Z) : amode :=
       else {| disp := u32; base := vx; index := 0; shift := 0 |}
   | AOff _, AOff _ => {| disp := 0; base := u64; index := 0; shift := 0 |}
   end.
+
+(* the register a shifted addend lives in, when it is a block parameter's (other values have registers of their own) *)
+Definition shifted_leaf (e : e64) : option nat :=
+  match e with SHL (V64 r) k true => if (1 <=? k) && (k <=? 3) then Some r else None | _ => None end.
+Definition alias (a b : e64) : bool :=
+  match shifted_leaf a, shifted_leaf b with Some r, Some r' => Nat.eqb r r' | _, _ => false end.
 
 Definition lower_to_amode (e : e64) (offBase : Z) : amode :=
   if 2147483648 <=? offBase then
@@ -117,7 +127,7 @@ Definition lower_to_amode (e : e64) (offBase : Z) : amode :=
     | AOff o => {| disp := 0; base := w64 (o + offBase); index := 0; shift := 0 |}
     end
   else match e with
-  | ADD a b true => lower_addends_to_amode (lower_addend a) (lower_addend b) offBase
+  | ADD a b true => lower_addends_to_amode (lower_addend a) (lower_addend b) offBase (alias a b)
   | _ => match lower_addend e with
          | AReg v s => if negb (s =? 0) then {| disp := offBase; base := 0; index := v; shift := s |}
                        else {| disp := offBase; base := v; index := 0; shift := 0 |}
@@ -137,7 +147,8 @@ Definition lower_panics (e : e64) (offBase : Z) : bool :=
    Only the nodes that the code pattern-matches are constrained (the pointer itself and, under a single-use Iadd
    and an offset below 2^31, its two operands); everything below them is a value sitting in its register.
    A matched addend must not be: a sign extension of a register, a narrow extension, a sign extension of a 64-bit
-   value, a shift by a constant above 3 or by a variable amount. *)
+   value, a shift by a constant above 3 or by a variable amount (SHV: the amount is not a constant instruction);
+   and the two operands must not be shifts of one and the same register. *)
 Definition addend_ok (e : e64) : bool :=
   match e with
   | SX (R32 _) true => false
@@ -149,7 +160,7 @@ Definition addend_ok (e : e64) : bool :=
   end.
 Definition lowerable (off : Z) (e : e64) : bool :=
   if 2147483648 <=? off then addend_ok e
-  else match e with ADD a b true => addend_ok a && addend_ok b | _ => addend_ok e end.
+  else match e with ADD a b true => addend_ok a && addend_ok b && negb (alias a b) | _ => addend_ok e end.
 (* a matched zero extension of a register needs the register's upper half to be clear (every 32-bit amd64
    instruction leaves it so) *)
 Definition addend_zext (rg : regs) (e : e64) : Prop :=
@@ -159,12 +170,13 @@ Definition zext_ok (rg : regs) (off : Z) (e : e64) : Prop :=
   else match e with ADD a b true => addend_zext rg a /\ addend_zext rg b | _ => addend_zext rg e end.
 
 (* What the frontend produces for memory and table accesses: no SExtend / narrow / 64-bit-input extension and no
-   variable shift anywhere, constant shifts of at most 3 (it scales by 4 and 8 only). *)
+   variable shift anywhere, constant shifts of at most 3 (it scales by 4 and 8 only), never a sum of two shifts
+   (only the index of a table access is scaled). *)
 Fixpoint frontend_shape (e : e64) : bool :=
   match e with
   | SX _ _ | XN _ _ _ _ | SXW _ _ _ | SHV _ _ _ => false
   | SHL x k _ => (0 <=? k) && (k <=? 3) && frontend_shape x
-  | ADD a b _ => frontend_shape a && frontend_shape b
+  | ADD a b _ => frontend_shape a && frontend_shape b && negb (alias a b)
   | _ => true
   end.
 Fixpoint zext_all (rg : regs) (e : e64) : Prop :=
